@@ -336,6 +336,11 @@ func genPrioScenario(rng *rand.Rand, g prioGen) PrioScenario {
 		}
 	}
 
+	if g.Mode == "progress" && rng.IntN(60) == 0 && H <= 32 {
+		// progress must not depend on how long the discipline has been idle: a long quiet
+		// period (several times the progress window), then the probe
+		sc.Script = append(sc.Script, POp{K: "R", Mode: "all"}, POp{K: "D"}, POp{K: "S", D: int64(150000 + rng.IntN(150000))}, POp{K: "P"})
+	}
 	switch g.Mode {
 	case "terminate":
 		// all orders of {last input closes, last release, last item read}: withhold one release
@@ -343,6 +348,13 @@ func genPrioScenario(rng *rand.Rand, g prioGen) PrioScenario {
 		order := rng.Perm(len(prios))
 		keepOpen := uint(0)
 		variant := rng.IntN(3)
+		// a long quiet period (several times the progress window) with one input open and idle:
+		// termination must still be prompt once that input closes. Rare, because every idle
+		// virtual nanosecond of the scheduler costs microseconds of real time.
+		longIdle := rng.IntN(60) == 0 && H <= 32
+		if longIdle {
+			variant = 1
+		}
 		for i, idx := range order {
 			p := prios[idx]
 			if variant == 1 && i == len(order)-1 {
@@ -358,13 +370,18 @@ func genPrioScenario(rng *rand.Rand, g prioGen) PrioScenario {
 			sc.Script = append(sc.Script, POp{K: "graceful"})
 		}
 		sc.Script = append(sc.Script, POp{K: "D"})
+
 		switch variant {
 		case 0: // withhold one release
 			sc.Script = append(sc.Script, POp{K: "R", Mode: "allbut1"}, POp{K: "D"}, POp{K: "R", Mode: "allbut1"}, POp{K: "D"},
 				POp{K: "H", D: int64(200 + rng.IntN(5000))})
 		case 1: // one idle input stays open
 			sc.Script = append(sc.Script, POp{K: "R", Mode: "all"}, POp{K: "D"}, POp{K: "R", Mode: "all"}, POp{K: "D"},
-				POp{K: "H", D: int64(200 + rng.IntN(5000))}, POp{K: "C", P: keepOpen})
+				POp{K: "H", D: int64(200 + rng.IntN(5000))})
+			if longIdle {
+				sc.Script = append(sc.Script, POp{K: "S", D: int64(150000 + rng.IntN(150000))})
+			}
+			sc.Script = append(sc.Script, POp{K: "C", P: keepOpen})
 		default: // release everything but do not read the last items for a while (v1: they sit in the output)
 			sc.Script = append(sc.Script, POp{K: "R", Mode: "all"}, POp{K: "S", D: int64(100 + rng.IntN(2000))})
 		}
